@@ -326,6 +326,27 @@ func (*ExprBridge).CreateEnhancedExprEnvironment$2
   observe verdict := matchesLikePattern
   atreturn the-matchers-verdict-is-the-answer: result == $verdict
 
+immutable ExprBridge: exprEnv
+
+pure github.com/expr-lang/expr.Function
+
+// the registry's listing reads the registry and writes nothing
+extern (*FunctionRegistry).ListAll
+  props C20 C06 C13
+
+// the maker of one wrapper: it only builds the closure
+func (*ExprBridge).RegisterStreamSQLFunctionsToExpr$1
+  props C20 C06 C13
+  ensures true
+
+// the environment of wrapped functions is one map shared by every query of the process: it is filled only while the
+// bridge's lock is held for WRITING (a read lock would let two compilations write it at once)
+func (*ExprBridge).RegisterStreamSQLFunctionsToExpr
+  props C20 C06 C13
+  acquires bridge.mutex
+  modifies *
+  loop 1 invariant the-shared-environment-is-written-only-while-the-bridges-lock-is-held-for-writing: wheld(bridge.mutex) && held(bridge.mutex)
+
 // the functions offered to compiled conditions: each name, in lower and in upper case, is bound to a wrapper that runs
 // that very function with the arguments given
 func (*ExprBridge).RegisterStreamSQLFunctionsToExpr$1$1
